@@ -194,6 +194,9 @@ pub enum Case {
     /// fresh-key writes while every listing of the cache directory is refused with `errno` (descriptors or memory
     /// exhausted): a write whose maintenance was due and could not run may fail, but it may not insert anyway
     DeniedListing { k: usize, errno: i32, draw: u64 },
+    /// fresh-key writes on a filesystem whose timestamps have a granularity of `gran_s` seconds while the clock
+    /// advances a millisecond per call: every file of a burst carries the same modification time
+    Coarse { k: usize, gran_s: u8, draw: u64 },
 }
 
 impl Case {
@@ -208,6 +211,7 @@ impl Case {
             Case::Linked { k, source_kind, draw } => json!({"kind": "linked", "k": k.to_string(), "source_kind": source_kind, "draw": draw.to_string()}),
             Case::Family { k, mode, draw } => json!({"kind": "family", "k": k.to_string(), "mode": mode, "draw": draw.to_string()}),
             Case::Rebuilt { k, mode, draw } => json!({"kind": "rebuilt", "k": k.to_string(), "mode": mode, "draw": draw.to_string()}),
+            Case::Coarse { k, gran_s, draw } => json!({"kind": "coarse", "k": k.to_string(), "gran_s": gran_s, "draw": draw.to_string()}),
             Case::DeniedListing { k, errno, draw } => json!({"kind": "denied_listing", "k": k.to_string(), "errno": errno, "draw": draw.to_string()}),
         }
     }
@@ -226,6 +230,7 @@ impl Case {
             "broken_temp" => Case::BrokenTemp { k, writes: v["writes"].as_u64().unwrap() as u32, draw: num(&v["draw"]) },
             "linked" => Case::Linked { k, source_kind: v["source_kind"].as_u64().unwrap() as u8, draw: num(&v["draw"]) },
             "spelled" => Case::Spelled { k, spelling: v["spelling"].as_u64().unwrap() as usize, draw: num(&v["draw"]) },
+            "coarse" => Case::Coarse { k, gran_s: v["gran_s"].as_u64().unwrap() as u8, draw: num(&v["draw"]) },
             "denied_listing" => Case::DeniedListing { k, errno: v["errno"].as_i64().unwrap() as i32, draw: num(&v["draw"]) },
             "rebuilt" => Case::Rebuilt { k, mode: v["mode"].as_u64().unwrap() as u8, draw: num(&v["draw"]) },
             "huge" => Case::Huge { k, draw: num(&v["draw"]), writes: v["writes"].as_u64().unwrap() as u32 },
@@ -511,6 +516,37 @@ pub fn run_case(case: &Case, rep: &mut Report) -> Vec<(String, String)> {
                 }
             }
         }
+        Case::Coarse { k, gran_s, draw } => {
+            let p = period(*k as u128) as usize;
+            shim::set_granularity_ns(*gran_s as i64 * 1_000_000_000);
+            let mut w = Writer::new(&sc, *k);
+            verif_hooks::script_trigger_draws(&[], Some(*draw));
+            verif_hooks::set_trigger_counter(0);
+            let mut since = 0usize;
+            for i in 0..(3 * (k + p) + 6) {
+                let (r, ran, _before, trace) = w.write(&format!("key{}", i), i % 2 == 0);
+                rep.transitions += trace.len() as u64;
+                if !matches!(r, Ok(Ok(()))) {
+                    bad.push(("error".into(), format!("write {} failed: {:?}", i, r)));
+                    break;
+                }
+                if ran {
+                    since = 0;
+                } else {
+                    since += 1;
+                    if since >= p {
+                        bad.push(("window-exceeded".into(), format!("capacity {}: {} consecutive writes without maintenance (window {})", k, since, p)));
+                        break;
+                    }
+                }
+                let n = w.file_count();
+                if n > k + p {
+                    bad.push(("too-many-files".into(), format!("capacity {}, timestamps of {} s granularity (all files of the burst share one modification time): {} files after write {} (bound {})", k, gran_s, n, i, k + p)));
+                    break;
+                }
+            }
+            shim::set_granularity_ns(1);
+        }
         Case::DeniedListing { k, errno, draw } => {
             struct DenyListing {
                 dir: String,
@@ -621,7 +657,7 @@ pub fn run(tier: Tier, shard: Shard, rep: &mut Report) {
          not a write and must not use up the window); fresh-key writes while .kismet_temp cannot be listed (it is a regular file): \
          the firing writes report the error but the directory is still pruned on schedule; fresh-key writes for capacities 0..=12 with the \
          directory named in 8 ways (absolute, relative, '.', the empty path, './cache/', 'cache//', 'cache/.', '../cache'); fresh-key writes for capacities 0..=12 whose values \
-         are symbolic links (to a file that stays, to a file deleted after the write, to a directory); capacities 0..=20 with every listing of the cache directory refused (EMFILE, ENFILE, ENOMEM, EIO, EACCES): a write that was due to maintain does not insert without having listed; capacities 0..=40 with a cache handle built by the writing thread between any two writes (its own again, an unrelated plain, sharded or stacked one) x 3 draws; capacities 2^63, 3*2^62, usize::MAX-2..=usize::MAX: small draws fire at the first write, 2^64-1 with 1000 writes never \
+         are symbolic links (to a file that stays, to a file deleted after the write, to a directory); capacities 0..=30 on a filesystem with 1 s and 2 s timestamps (all files of a burst share one modification time); capacities 0..=20 with every listing of the cache directory refused (EMFILE, ENFILE, ENOMEM, EIO, EACCES): a write that was due to maintain does not insert without having listed; capacities 0..=40 with a cache handle built by the writing thread between any two writes (its own again, an unrelated plain, sharded or stacked one) x 3 draws; capacities 2^63, 3*2^62, usize::MAX-2..=usize::MAX: small draws fire at the first write, 2^64-1 with 1000 writes never \
          panics. Every case is distinct. (4) One writer at capacity 2, 3, 5 over an over-full directory racing with an outsider that \
          deletes the oldest, a middle or the newest entry, or with a reader that looks every entry up (all schedules with <= 2 preemptions): the bound holds after the write.",
         kmax, smallk, seqlen, kmax
@@ -701,6 +737,14 @@ pub fn run(tier: Tier, shard: Shard, rep: &mut Report) {
         for mode in 0..2u8 {
             for draw in [u64::MAX, (scale(k as u128) as u64).saturating_mul(period(k as u128) as u64 - 1).saturating_add(1)] {
                 take(Case::Family { k, mode, draw }, rep);
+            }
+        }
+    }
+    // coarse timestamps: every file of a burst carries the same modification time
+    for k in 0..=kmax.min(30) {
+        for gran_s in [1u8, 2] {
+            for draw in [u64::MAX, 1u64] {
+                take(Case::Coarse { k, gran_s, draw }, rep);
             }
         }
     }
